@@ -219,6 +219,53 @@ theorem die_null_loop (o : Opts) {path : Path} {put : Container → Cif} {code :
   simp only [bind_eq, pure_eq, P.bind, P.pure, h1, List.isEmpty_nil, if_true, report_die CIF_NULL_LOOP _ _ w (by decide)]
   simp [hw]
 
+/-- a data name repeated in its loop header (`loop_ ns₁ n'`, `n'` a name of the container or of `ns₁`, any spelling): the report is
+    made while the header is read — the loop has not been created -/
+theorem die_dup_header_name (o : Opts) {path : Path} {put : Container → Cif} {code : Str} (hv : View o path put code) (isBlock : Bool)
+    (ns1 : List Str) (n' : Str) (fs : List Container) (ls : List Loop)
+    (hwf : ∀ n ∈ ns1, wfName n = true) (hfresh : ∀ n ∈ ns1, o.norm n ∉ normNames o ls) (hnd : (ns1.map o.norm).Nodup)
+    (hname : wfName n' = true) (hdup : o.norm n' ∈ normNames o ls ∨ ∃ m ∈ ns1, o.norm m = o.norm n') :
+    DieSeg o path put code isBlock ((.loopKw, []) :: (ns1.map (fun n => (TokType.name, n)) ++ [(.name, n')])) fs ls fs ls
+      CIF_DUP_ITEMNAME (1 + ns1.length) (ns1.length + 2) (fun _ => True) := by
+  intro rest s fuel w hw hf _ hF
+  obtain ⟨g, rfl⟩ : ∃ g, fuel = ((g + 1) + ns1.length) + 1 := ⟨fuel - ns1.length - 2, by omega⟩
+  simp only [List.cons_append, List.append_assoc, List.singleton_append] at hF
+  obtain ⟨t, s1, hty, _, hn, ht, hr⟩ := hF.inv
+  obtain ⟨s2, h1, h2, ha2⟩ := header_run_at o hv fs ls ns1 [] _ (consume s1) (g + 1) dieAll w hw hwf hfresh
+    (by simpa using hnd) hr
+  simp only [List.nil_append] at h1
+  have a2 := ((At.refl o s).step hn ht).trans ha2
+  simp only [wfName, Bool.and_eq_true] at hname
+  obtain ⟨t2, s3, ht1, ht2, hn2, htk2, _⟩ := h2.inv
+  have hstep : headerLoop o (some path) (g + 1) s2 (ns1.map some) dieAll w
+      = .abort (CIF_DUP_ITEMNAME : Int) { w with log := ⟨CIF_DUP_ITEMNAME, s3.scan.line, s3.scan.col - t2.text.length⟩ :: w.log } := by
+    rw [headerLoop]
+    by_cases hin : o.norm n' ∈ normNames o ls
+    · simp only [bind_eq, pure_eq, P.bind, P.pure, hn2, ht1, ht2, if_true, cstr_noNul hname.2,
+        itemExists_true o hv n' fs ls dieAll w hw hname.1 hin, report_die CIF_DUP_ITEMNAME _ _ w (by decide)]
+    · rcases hdup with h | ⟨m, hm, hmn⟩
+      · exact absurd h hin
+      · have hmv : isValidName true m = true := by
+          have := hwf m hm; simp only [wfName, Bool.and_eq_true] at this; exact this.1
+        have hfind : findHeaderName o (ns1.map some) n' = some false := by
+          unfold findHeaderName
+          have hmem : some m ∈ ns1.map some := List.mem_map.mpr ⟨m, hm, rfl⟩
+          simp only [hname.1, Bool.not_true, Bool.false_eq_true, if_false]
+          split
+          · rfl
+          · rename_i h
+            exact absurd (List.any_eq_true.mpr ⟨some m, hmem, by simp [hmv, hmn]⟩) h
+        simp only [bind_eq, pure_eq, P.bind, P.pure, hn2, ht1, ht2, if_true, cstr_noNul hname.2,
+          itemExists_false o hv n' fs ls dieAll w hw hname.1 hin, Bool.false_eq_true, if_false, hfind,
+          report_die CIF_DUP_ITEMNAME _ _ w (by decide)]
+  refine ⟨⟨CIF_DUP_ITEMNAME, s3.scan.line, s3.scan.col - t2.text.length⟩, ?_, rfl,
+    ⟨s3, (a2.peek hn2 htk2).cast (by omega), rfl⟩⟩
+  conv => lhs; rw [elemsLoop]
+  simp only [bind_eq, pure_eq, P.bind, P.pure, hn, hty]
+  unfold parseLoop
+  simp only [bind_eq, pure_eq, P.bind, P.pure, h1, hstep]
+  simp [hw]
+
 /-! ### the defect at any depth of nesting -/
 
 /-- one level of the nesting context in front of the defect: the elements in front of the frame that is open, and its code -/
